@@ -132,6 +132,20 @@ func ParseCTerm(n *sexp.Node) (*CTerm, error) {
 		a, err := ParseCTerm(n.Arg(2))
 		t.A = a
 		return t, err
+	case "ite":
+		c := n.Arg(0)
+		sc, err := parseScript(c.Arg(0))
+		if err != nil {
+			return nil, err
+		}
+		j, _ := atoi(c.Arg(1))
+		v, _ := atoi(c.Arg(2))
+		a, err := ParseCTerm(n.Arg(1))
+		if err != nil {
+			return nil, err
+		}
+		b, err := ParseCTerm(n.Arg(2))
+		return &CTerm{K: KIte, C: &Cond{Sc: sc, J: j, N: v}, A: a, B: b}, err
 	}
 	return nil, fmt.Errorf("bad term %s", n)
 }
